@@ -88,6 +88,7 @@ type printer struct {
 	w   *bufio.Writer
 
 	lv    int
+	cont  bool // keep the line continuations between word parts
 	stack [][]*ast.Redir
 }
 
@@ -126,6 +127,7 @@ func (p *printer) print(n ast.Node) (err error) {
 	p.push()
 	switch n := n.(type) {
 	case ast.Command:
+		p.cont = true
 		p.command(n)
 	case ast.Word:
 		p.word(n)
@@ -672,8 +674,14 @@ func (p *printer) heredoc() {
 }
 
 func (p *printer) word(w ast.Word) {
-	for _, w := range w {
-		p.wordPart(w)
+	for i, x := range w {
+		if p.cont && i > 0 && w[i-1].End().Line() < x.Pos().Line() {
+			// two parts of a word stand on different lines only
+			// across a line continuation; without it they may
+			// spell another token
+			p.w.WriteString("\\\n")
+		}
+		p.wordPart(x)
 	}
 }
 
@@ -720,6 +728,10 @@ func (p *printer) paramExp(w *ast.ParamExp) {
 			p.w.WriteString("${#" + w.Name.Value + "}")
 		default:
 			p.w.WriteString("${" + w.Name.Value + w.Op)
+			if p.cont && len(w.Word) != 0 && w.OpPos.Line() < w.Word.Pos().Line() {
+				// likewise between the operator and the word
+				p.w.WriteString("\\\n")
+			}
 			p.word(w.Word)
 			p.w.WriteByte('}')
 		}
